@@ -64,9 +64,23 @@ pub struct Layout {
     pub new_t0: Time,
     pub bt: Duration,
     pub window: Duration,
+    /// Stalled / old chain: every height, including the network head and everything announced
+    /// later, is older than the sampling window.
+    pub all_old: bool,
 }
 
 impl Layout {
+    /// A chain that is old as a whole (e.g. a network that stopped producing blocks hours ago, or
+    /// a node syncing an archived chain): all `n_old + reserve` heights end >= MARGIN before the
+    /// window edge.
+    pub fn new_stalled(n_old: u64, reserve: u64, bt: Duration, extra_window: Duration) -> Layout {
+        let now = Time::now();
+        let span_new = bt * (reserve as u32 + 2);
+        let window = MARGIN + HEAD_BACK + span_new + extra_window;
+        let old_end = now.checked_sub(window + MARGIN).unwrap();
+        let old_t0 = old_end.checked_sub(bt * ((n_old + reserve) as u32 + 2)).unwrap();
+        Layout { n_old, old_t0, new_t0: old_t0, bt, window, all_old: true }
+    }
     /// `reserve` = maximal number of in-window heights that will ever be generated.
     pub fn new(n_old: u64, reserve: u64, bt: Duration, extra_window: Duration) -> Layout {
         let now = Time::now();
@@ -75,10 +89,10 @@ impl Layout {
         let new_t0 = now.checked_sub(HEAD_BACK + span_new).unwrap();
         let old_end = now.checked_sub(window + MARGIN).unwrap();
         let old_t0 = old_end.checked_sub(bt * (n_old as u32 + 1)).unwrap();
-        Layout { n_old, old_t0, new_t0, bt, window }
+        Layout { n_old, old_t0, new_t0, bt, window, all_old: false }
     }
     pub fn time_of(&self, h: u64) -> Time {
-        if h <= self.n_old {
+        if self.all_old || h <= self.n_old {
             (self.old_t0 + self.bt * (h as u32)).unwrap()
         } else {
             (self.new_t0 + self.bt * ((h - self.n_old) as u32)).unwrap()
@@ -86,7 +100,7 @@ impl Layout {
     }
     /// Ground truth: is height `h` older than the sampling window (by construction, >= MARGIN)?
     pub fn is_old(&self, h: u64) -> bool {
-        h <= self.n_old
+        self.all_old || h <= self.n_old
     }
 }
 
